@@ -5,6 +5,7 @@ package utils
 import (
 	"bytes"
 	"crypto/sha256"
+	"encoding/base64"
 	"encoding/hex"
 	"fmt"
 	"io"
@@ -265,4 +266,37 @@ func (f *fixedFragments) Read(p []byte) (int, error) {
 	copy(p, f.data[:n])
 	f.data = f.data[n:]
 	return n, nil
+}
+
+// C12: a chunk-size field is a bare hexadecimal number. "+a" and "-0" were accepted (strconv.ParseInt) by both decoders.
+func TestC12SignedChunkSizeFieldIsMalformed(t *testing.T) {
+	for _, sz := range []string{"+a", "-0"} {
+		body := "0123456789"
+		if sz == "-0" {
+			body = ""
+		}
+		// unsigned: <size>\r\n<data>\r\n0\r\n<trailer>
+		h, _ := getHasher(checksumTypeCrc32)
+		h.Write([]byte(body))
+		cs := base64.StdEncoding.EncodeToString(h.Sum(nil))
+		var stream string
+		if sz == "-0" {
+			stream = "-0\r\nx-amz-checksum-crc32:" + cs + "\r\n\r\n"
+		} else {
+			stream = sz + "\r\n" + body + "\r\n0\r\nx-amz-checksum-crc32:" + cs + "\r\n\r\n"
+		}
+		r, err := NewUnsignedChunkReader(bytes.NewReader([]byte(stream)), checksumTypeCrc32, false)
+		if err != nil {
+			t.Fatal(err)
+		}
+		if got, err := io.ReadAll(r); err == nil {
+			t.Errorf("unsigned stream with size field %q: accepted, decoded %q", sz, got)
+		}
+	}
+	// signed: "+a;chunk-signature=..." with correct signatures
+	s := c12Signed([][]byte{[]byte("0123456789")}, true)
+	s = append([]byte("+"), s...)
+	if got, err := c12ReadSigned(t, s); err == nil {
+		t.Errorf("signed stream with size field \"+a\": accepted, decoded %q", got)
+	}
 }
